@@ -328,12 +328,13 @@ func (r *runner) exec(o hx.Op) (line string) {
 		if !seq || !ok0 || !ok1 {
 			return "bad-op"
 		}
-		before, nb := w.ds.Image(), w.ds.NumWrites()
+		nb := w.ds.NumWrites()
 		txs, out := w.next(id)
 		nw := w.ds.NumWrites() - nb
 		if at == 1 {
-			r.m.onNext(id, txs, out, before, nb) // the answer had been produced: handed out
-			r.m.afterOp()
+			// the process dies after the call's write (the Delete) became durable and BEFORE the call returns:
+			// the caller never receives the batch - nothing was handed out
+			r.m.onCrashedNext(id, txs, out, nb)
 			r.restartAt(nb + nw)
 		} else {
 			r.restartAt(nb) // nothing was handed out, nothing was deleted
